@@ -73,7 +73,7 @@ EvCall(e, ty, rho, C) ==
   CASE f.k = "jet" ->
          LET sig == JetSig(f.n)
              r == EvSeq(args, sig.args, rho, C)
-         IN IF IsFail(r) THEN FAIL ELSE JetEval(f.n, r.vs)
+         IN IF IsFail(r) THEN FAIL ELSE JetEvalEnv(f.n, r.vs, C.env)
     [] f.k = "unwrap_left" ->
          LET v == Ev(args[1], TEither(ty, Resolve(f.t, C.al)), rho, C) IN
          IF IsFail(v) THEN FAIL ELSE IF v.k = "vleft" THEN v.v ELSE FAIL
@@ -145,8 +145,9 @@ Ev(e, ty, rho, C) ==
 
 \* Verdict of a well-formed program on a witness assignment and template arguments:
 \* TRUE = main finishes, FALSE = panic.
-RunSrcM(m, wit, args) ==
-  LET C == [fns |-> m.G.fns, al |-> m.G.al, wit |-> wit, args |-> args]
+RunSrcEnv(m, wit, args, env) ==
+  LET C == [fns |-> m.G.fns, al |-> m.G.al, wit |-> wit, args |-> args, env |-> env]
   IN ~IsFail(Ev(m.body, TUnit, EmptyFn, C))
+RunSrcM(m, wit, args) == RunSrcEnv(m, wit, args, DummyEnv)
 RunSrc(items, wit, args) == RunSrcM(MainCtx(items, G0), wit, args)
 =============================================================================
